@@ -1,0 +1,56 @@
+# Verification tracing hooks (used by the model-based verification harness).
+#
+# Disabled unless the environment variable TESTTOOLS_VERIF is "1" AND
+# TESTTOOLS_VERIF_TRACE names a file: then one JSON object per line is
+# appended for every traced event.  With the guard off every entry point is a
+# cheap no-op and nothing else in testtools changes behaviour.
+
+import json
+import os
+
+enabled = os.environ.get("TESTTOOLS_VERIF") == "1" and bool(
+    os.environ.get("TESTTOOLS_VERIF_TRACE")
+)
+_path = os.environ.get("TESTTOOLS_VERIF_TRACE")
+_seq = 0
+_runs = 0
+
+_KIND_OF_HANDLER = {
+    "_report_skip": "skip",
+    "_report_failure": "fail",
+    "_report_expected_failure": "xfail",
+    "_report_unexpected_success": "uxs",
+    "_report_error": "err",
+}
+
+
+def next_run():
+    global _runs
+    _runs += 1
+    return _runs
+
+
+def classify(exc, handlers):
+    """Which documented kind an exception is, from the handler list that would report it."""
+    if not isinstance(exc, Exception):
+        return "base"
+    for exc_class, handler in handlers:
+        if isinstance(exc, exc_class):
+            name = getattr(handler, "__name__", "")
+            return _KIND_OF_HANDLER.get(name, "custom")
+    return "unhandled"
+
+
+def emit(ev, **fields):
+    if not enabled:
+        return
+    global _seq
+    _seq += 1
+    fields["ev"] = ev
+    fields["seq"] = _seq
+    fields["pid"] = os.getpid()
+    try:
+        with open(_path, "a") as f:
+            f.write(json.dumps(fields, default=repr) + "\n")
+    except OSError:
+        pass
